@@ -19,7 +19,7 @@ RULE = ("Hypothesis-generated synthetic rulesets with a PRINCE base list (types 
         "real prince_ling.main() is run in-process unbounded (U), to a file, and with --size N for EVERY N in 1..|U|+1. "
         "Oracle: Counter(U) == model language of (type, value, capitalisation), each derivation once; the model probabilities "
         "along U are non-increasing; file bytes == stdout bytes; size-N output == U[:N]. A CLI part runs prince_ling.py as a "
-        "subprocess. Non-trivial = N strictly inside a group of >=2 equally probable words; distinct = hash of (model, flag, N).")
+        "subprocess under drawn invocation contexts (hash seed different from the reference run's when the PRINCE types and their top groups are tied, one case in three). Non-trivial = N strictly inside a group of >=2 equally probable words; distinct = hash of (model, flag, N).")
 ASSUMPTIONS = ["N >= 1", "UTF-8 ruleset encoding for the file == stdout comparison"]
 
 _ROOT = None
@@ -132,7 +132,7 @@ def prop(case, rec):
     for n in ns:
         sub = dict(case, ns=[n])
         got, _ = guard(sub, run_prince, root, ['-r', 'T', '-s', str(n)] + flags)
-        cls = ['size_inside_tied_group' if n in inside else 'size_on_boundary', 'all_lower' if sc else 'case_mangling']
+        cls = ['size_inside_tied_group' if n in inside else 'size_on_boundary', 'all_lower' if sc else 'case_mangling'] + (['types_tied'] if m.get('prince_types_tied') else [])
         if any(t in ('E', 'W') for t, _, _ in [(b[0][0], 0, 0) for b in base]):
             cls.append('email_or_website_type')
         rec.case({'N': n, 'total': len(U), 'all_lower': sc}, n in inside, cls, key=[m, sc, n])
@@ -151,6 +151,22 @@ def cases(draw, max_pt=40):
         m['websites'] = [['google.com', 0.75], ['www.x.org', 0.25]][:draw(st.integers(1, 2))]
         extra = [[t, draw(S.probs('count'))] for t in draw(st.sampled_from([['E'], ['W'], ['E', 'W']]))]
         m['prince'] = sorted(m['prince'] + extra, key=lambda x: -x[1])
+    if draw(st.integers(0, 2)) == 0:
+        # equally probable types whose most probable groups are equally probable too (every small training set gives these): their
+        # terminals tie across types, and the order among them has to be the same in every process, for the file, for stdout
+        # and for --size N
+        have = [t for t, _ in m['prince']]
+        more = [t for t in sorted(m['vars']) if t[0] != 'C' and t not in have]
+        if len(have) < 2 and more:
+            m['prince'].append([more[0], m['prince'][0][1]])
+        if len(m['prince']) >= 2:
+            p0 = m['prince'][0][1]
+            m['prince'] = [[t, p0] for t, _ in m['prince']]
+            top = max(m['vars'][t][0][0] for t, _ in m['prince'] if t in m['vars'])
+            for t, _ in m['prince']:
+                if t in m['vars']:
+                    m['vars'][t][0][0] = top
+            m['prince_types_tied'] = True
     # cap language size
     vs, base, words = model_words(m, False)
     while len(words) > 60 and len(m['prince']) > 1:
@@ -206,7 +222,7 @@ def prop_cli(case, rec):
     except subprocess.TimeoutExpired:
         rec.skip('cli_timeout_inconclusive')
         return
-    rec.case({'args': args, 'words': len(U), 'context': ctx}, len(U) >= 2, ['cli', 'cli_output_' + out_mode] + cli.label(ctx), key=[m, sc, n, 'cli', ctx, out_mode, lo])
+    rec.case({'args': args, 'words': len(U), 'context': ctx}, len(U) >= 2, ['cli', 'cli_output_' + out_mode] + cli.label(ctx) + (['types_tied'] if m.get('prince_types_tied') else []), key=[m, sc, n, 'cli', ctx, out_mode, lo])
     if target is None:
         got = p.stdout
     else:
@@ -225,18 +241,20 @@ def cli_cases(draw):
     c['n'] = draw(st.sampled_from([None, 1, 2, 3, 5]))
     from .. import cli
     c['context'] = draw(cli.contexts())
+    if c['model'].get('prince_types_tied') and c['context'].get('hashseed') == 0:
+        c['context']['hashseed'] = 4242        # the reference list is made in this process (PYTHONHASHSEED=0): the other process gets another seed
     c['output'] = draw(st.sampled_from(['stdout', 'relative', 'relative', 'absolute']))
     c['long_options'] = draw(st.booleans())
     return c
 
 
 def run_cli(rec, seed, shard, nshards, tier):
-    n = {'quick': 5, 'thorough': 30}[tier]
+    n = {'quick': 12, 'thorough': 40}[tier]
     core.hyp_run(rec, prop_cli, cli_cases(), n, seed, shrink=False)
 
 
 PARTS = [
     Part('regression_f17', run_regress, prop, {'quick': 1, 'thorough': 1}),
     Part('every_size', run_main, prop, {'quick': 8, 'thorough': 16}),
-    Part('cli', run_cli, prop_cli, {'quick': 2, 'thorough': 8}),
+    Part('cli', run_cli, prop_cli, {'quick': 4, 'thorough': 8}),
 ]
